@@ -383,6 +383,36 @@ let handle_run (c : case) (toks : string list) =
 
 
 
+(* plan first, transaction afterwards: the completed plan must spend under the locks the plan reported *)
+let planx_checked = ref 0
+let handle_runx (c : case) (toks : string list) =
+  match toks with
+  | mode :: km :: pm :: verdict :: rest ->
+    incr planx_checked;
+    (match verdict with
+     | "OK" ->
+       (match rest with
+        | n :: rest ->
+          let n = int_of_string n in
+          let rec take k l acc = if k = 0 then (List.rev acc, l) else match l with x :: r -> take (k - 1) r (x :: acc) | [] -> failwith "take" in
+          let (wit, rest) = take n rest [] in
+          let wit = List.map bytes_of_hex wit in
+          let ssig, rest = (match rest with "S" :: s :: r -> (bytes_of_hex s, r) | _ -> failwith "no S") in
+          let tapok = (match rest with "TAPOK" :: v :: _ -> v = "1" | _ -> true) in
+          let e = mk_env c in
+          if verify_spend e (fun _ _ -> tapok) c.spk ssig wit then incr stats_ok
+          else begin
+            incr stats_bad;
+            Printf.printf "BAD C17 case=%s kind=%s mode=%s keymask=%s premask=%s lock=%d seq=%d what=plan-made-with-every-lock-claimed-does-not-spend-under-its-reported-locks desc=%s wit=%s ssig=%s tapok=%b\n"
+              c.id c.kind mode km pm c.lock c.seq c.desc (hexs wit) (hex_of_bytes ssig) tapok
+          end
+        | [] -> failwith "bad RUNX OK")
+     | "PANIC" -> incr stats_panic; Printf.printf "PANIC case=%s kind=%s mode=%s planx desc=%s\n" c.id c.kind mode c.desc
+     | _ ->
+       Printf.printf "BAD C17 case=%s kind=%s mode=%s keymask=%s premask=%s lock=%d seq=%d what=plan-made-with-every-lock-claimed-cannot-be-completed desc=%s\n"
+         c.id c.kind mode km pm c.lock c.seq c.desc)
+  | _ -> failwith "bad RUNX line"
+
 (* ------------------------------------------------------------------ C03: third-party malleability search *)
 let c03_checked = ref 0 and c03_bad = ref 0 and c03_candidates = ref 0
 let c03_budget = 4000
@@ -748,6 +778,7 @@ let () =
                c.sigpairs <- ((key i).xonly, s) :: c.sigpairs; c.sigs_leaf <- (i, lh, s) :: c.sigs_leaf)
        | "SIGK" :: k :: s :: _ -> upd (fun c -> c.sigpairs <- (bytes_of_hex k, bytes_of_hex s) :: c.sigpairs)
        | "RUN" :: rest -> upd (fun c -> handle_run c rest)
+       | "RUNX" :: rest -> upd (fun c -> handle_runx c rest)
        | "PLAN" :: rest -> upd (fun c -> handle_plan c rest)
        | "END" :: "frags" :: _ -> print_endline "ENDFRAGS"
        | "DONE" :: _ -> print_endline "ENDSAT"
